@@ -16,10 +16,9 @@ Definition importer_unsafe : list map_range :=
   filter (fun r => in_importer r && negb (safe_class (mr_class r))) ranges.
 
 Definition importer_reviewed : list map_range := [
-  (* the definitions: proved, C11_import_deterministic (any order of the definitions and of each properties map
-     gives the same LIST), for documents inside doc_ok; refuted outside (array of a builtin-prefixed $ref:
-     known finding second-import-differs:swagger:array-of-builtin-prefixed-ref) *)
-  MR "importer.OpenAPI3Importer.convertSpec" 2 Delegate;
+  (* (the definitions are no longer a map range: since 3a34129 convertSpec visits utils.OrderedKeys of them -
+     Gen convert_shape; C11_import_any_order.) The properties of one definition: proved, C11_import_deterministic
+     (any order of each properties map gives the same LIST: SortWithoutDupl) *)
   MR "importer.OpenAPI3Importer.loadTypeSchema" 1 Emit;
   (* min / max / regex attributes of array and string DEFINITIONS: collected in map order, but writeExternalAlias
      does not write the attributes of an Array and a string definition is an Alias without attributes *)
